@@ -35,6 +35,7 @@ type c10Sess struct {
 	lastCMID uint64
 	ended    bool
 	posted   bool
+	isLink   bool // authenticated services link: its lines are server-to-server lines
 }
 
 // replayReplica replays the durable raft log on a fresh reference instance.
@@ -144,17 +145,58 @@ func c10Execute(c *c10Case, rt *rapid.T, base string) (fail *vh.Failure, labels 
 			}
 			_, f := newSession(fmt.Sprintf("user%d", len(sessions)))
 			return f
+		case "link":
+			// one more session, which authenticates as a services link (the bridge of the services
+			// retries its POSTs like any other bridge)
+			if len(sessions) >= 6 {
+				return nil
+			}
+			for _, ls := range sessions {
+				if ls.isLink && !ls.ended {
+					return nil
+				}
+			}
+			cred, code := n.createSession()
+			if code != 200 {
+				return vh.Failf("harness", "create session: %d", code)
+			}
+			ls := &c10Sess{cred: cred, isLink: true}
+			for _, line := range []string{"PASS :services=mypass", "SERVER services.robustirc.net 1 :Services for IRC Networks", "NICK ChanServ 1 1422134861 services localhost.net services.localhost.net 0 :Channel Services"} {
+				cmid++
+				if code := n.post(cred, line, cmid); code != 200 {
+					return vh.Failf("harness", "link post %q: %d", line, code)
+				}
+				ls.lastData, ls.lastCMID, ls.posted = line, cmid, true
+			}
+			sessions = append(sessions, ls)
+			lab["c10:services-link"] = true
 		case "line":
 			if s.ended {
 				return nil
 			}
 			cmid++
 			data := a.Data
+			if s.isLink {
+				// protocol-conforming lines of a link
+				switch {
+				case strings.HasPrefix(data, "PRIVMSG"):
+					data = "PRIVMSG" // rewritten below, with the pseudo-client as source
+				case strings.HasPrefix(data, "PING"):
+					data = "PING services.robustirc.net"
+				case strings.HasPrefix(data, "QUIT"):
+					data = ":ChanServ PART #c"
+				default:
+					data = ":ChanServ JOIN #c"
+				}
+			}
 			if s == observer && strings.HasPrefix(data, "QUIT") {
 				data = "PING keepalive"
 			}
 			if strings.HasPrefix(data, "PRIVMSG") {
 				data = fmt.Sprintf("PRIVMSG #c :text-%d", cmid)
+				if s.isLink {
+					data = ":ChanServ " + data
+				}
 				texts[fmt.Sprintf("text-%d", cmid)] = si
 			}
 			code := n.post(s.cred, data, cmid)
@@ -248,8 +290,10 @@ func c10Execute(c *c10Case, rt *rapid.T, base string) (fail *vh.Failure, labels 
 	if rt != nil {
 		na := rapid.IntRange(4, 30).Draw(rt, "nactions")
 		for k := 0; k < na; k++ {
-			a := c10Action{Sess: rapid.IntRange(0, 4).Draw(rt, "session")}
-			switch rapid.IntRange(0, 13).Draw(rt, "kind") {
+			a := c10Action{Sess: rapid.IntRange(0, 5).Draw(rt, "session")}
+			switch rapid.IntRange(0, 14).Draw(rt, "kind") {
+			case 14:
+				a.Kind = "link"
 			case 0:
 				a.Kind = "create"
 			case 1, 2, 3, 4:
